@@ -44,6 +44,22 @@ type propCfg struct {
 func cfgFor(id string) propCfg {
 	c := propCfg{Shards: 12, QuickCap: 15 * time.Minute, ThoroughCap: 60 * time.Minute, MemKB: 12 << 20}
 	switch id {
+	case "C01":
+		c.Fuzz = []fuzzTarget{{"FuzzCodec", 2 * time.Minute}}
+	case "C05":
+		c.Fuzz = []fuzzTarget{{"FuzzInterp", 4 * time.Minute}}
+	case "C08":
+		c.Fuzz = []fuzzTarget{{"FuzzAlias", 2 * time.Minute}}
+	case "C13":
+		c.Fuzz = []fuzzTarget{{"FuzzScript", 2 * time.Minute}}
+	case "C14":
+		c.Fuzz = []fuzzTarget{{"FuzzInspect", 2 * time.Minute}}
+	case "C15":
+		c.Fuzz = []fuzzTarget{{"FuzzAddress", 2 * time.Minute}}
+	case "C17":
+		c.Fuzz = []fuzzTarget{{"FuzzText", 2 * time.Minute}}
+	case "C19":
+		c.Fuzz = []fuzzTarget{{"FuzzDebug", 3 * time.Minute}}
 	case "C07":
 		c.Fuzz = []fuzzTarget{{"FuzzExecute", 4 * time.Minute}}
 	case "C09":
@@ -907,6 +923,9 @@ func copyFile(src, dst string) {
 // directory; a crasher is converted by the test package itself into a replay
 // case (the fuzz target writes fail files through pbt when VERIF_OUT is set).
 func runFuzz(id string, ft fuzzTarget, replayDir, bin string) (map[string]any, []string, []string) {
+	if v, err := strconv.Atoi(os.Getenv("VERIF_FUZZTIME")); err == nil && v > 0 {
+		ft.Duration = time.Duration(v) * time.Second // for sensitivity runs
+	}
 	info := map[string]any{"duration_s": ft.Duration.Seconds()}
 	cache, err := os.MkdirTemp("", "vfuzz-")
 	if err != nil {
